@@ -1,25 +1,1201 @@
-//! C24 — not built yet (stub).
+//! C24 — HTTP requests always get a well-formed response.
+//!
+//! One case = one *session*: a fresh in-process `searchlite_http` server on a loopback port
+//! and a scratch index directory, then a sequence of raw HTTP/1.1 requests (valid, mutated,
+//! mis-framed, oversized, stalling, panicking the core, against a missing / corrupt index …).
+//!
+//! Correspondence: for every request the harness derives the abstract facts of
+//! `SL.Http.Facts` *natively* (routing table, serde parsing with the repository's own types,
+//! the library run directly on the index directory for the core outcome) and asks the model
+//! for `respond route facts`; status and body shape must equal what came back on the socket.
+//! Finder: the property's predicate on the implementation alone — a response arrives; non-2xx
+//! ⇒ body `{"error":{"type","reason"}}`; 2xx ⇒ the endpoint's JSON; 404 / 409 / 413 / 4xx /
+//! 500-on-panic where the statement demands them; `/healthz` answers after every request.
 use crate::proto::Driver;
 use crate::rng::Rng;
 use crate::summary::Summary;
+use crate::util::{guarded, hex, scratch, unhex};
 use crate::{Prop, Tier};
+use searchlite_core::api::types::{Document, IndexOptions, SearchRequest, StorageType};
+use searchlite_core::api::Index;
+use searchlite_core::Schema;
 use serde_json::{json, Value};
+use std::path::{Path, PathBuf};
 
-pub struct Stub;
-pub static P: Stub = Stub;
+#[path = "httpc.rs"]
+pub mod httpc;
+use httpc::*;
 
-impl Prop for Stub {
+pub struct C24;
+pub static P: C24 = C24;
+
+pub const ROUTES: [(&str, &str, &str); 11] = [
+  ("healthz", "GET", "/healthz"),
+  ("init", "POST", "/init"),
+  ("add", "POST", "/add"),
+  ("bulk", "POST", "/bulk"),
+  ("delete", "POST", "/delete"),
+  ("commit", "POST", "/commit"),
+  ("refresh", "POST", "/refresh"),
+  ("compact", "POST", "/compact"),
+  ("search", "POST", "/search"),
+  ("inspect", "GET", "/inspect"),
+  ("stats", "GET", "/stats"),
+];
+
+/// axum's built-in cap for `Bytes`-based extractors (`DefaultBodyLimit`), 2 MiB
+const AXUM_DEFAULT_LIMIT: usize = 2 * 1024 * 1024;
+
+pub fn lib_opts(path: &Path, create: bool) -> IndexOptions {
+  IndexOptions {
+    path: path.to_path_buf(),
+    create_if_missing: create,
+    enable_positions: true,
+    bm25_k1: 0.9,
+    bm25_b: 0.4,
+    storage: StorageType::Filesystem,
+    #[cfg(feature = "vectors")]
+    vector_defaults: None,
+  }
+}
+
+#[derive(serde::Deserialize)]
+#[allow(dead_code)]
+struct BulkReq {
+  docs: Vec<Value>,
+}
+#[derive(serde::Deserialize)]
+#[allow(dead_code)]
+struct DeleteReq {
+  ids: Vec<String>,
+}
+
+pub fn schema_pool(i: usize) -> Value {
+  match i % 3 {
+    0 => json!({"doc_id_field":"_id","text_fields":[{"name":"body","tokenizer":"default","stored":true,"indexed":true}],"keyword_fields":[],"numeric_fields":[]}),
+    1 => json!({"text_fields":[{"name":"body","analyzer":"default","stored":true,"indexed":true}],
+                "keyword_fields":[{"name":"tag","stored":true,"indexed":true,"fast":true}],
+                "numeric_fields":[{"name":"year","i64":true,"fast":true,"stored":true}]}),
+    // `n` is fast but not stored: compaction of ≥ 2 segments refuses (500 compact_failed)
+    _ => json!({"text_fields":[{"name":"body","analyzer":"default","stored":true,"indexed":true}],
+                "keyword_fields":[],
+                "numeric_fields":[{"name":"n","i64":true,"fast":true,"stored":false}]}),
+  }
+}
+
+const WORDS: [&str; 8] = ["rust", "search", "engine", "fast", "lite", "index", "über", "日本"];
+
+fn gen_doc(rng: &mut Rng, id: usize) -> Value {
+  let n = 1 + rng.below(5);
+  let body: Vec<&str> = (0..n).map(|_| *rng.pick(&WORDS)).collect();
+  let mut d = json!({"_id": format!("d{id}"), "body": body.join(" ")});
+  if rng.chance(1, 2) {
+    d["tag"] = json!(["a", "b", "c"][rng.below(3)]);
+    d["year"] = json!(2000 + rng.below(20));
+    d["n"] = json!(rng.below(9));
+  }
+  d
+}
+
+fn ndjson(docs: &[Value]) -> Vec<u8> {
+  let mut out = Vec::new();
+  for d in docs {
+    out.extend_from_slice(d.to_string().as_bytes());
+    out.push(b'\n');
+  }
+  out
+}
+
+/// one NDJSON document padded so that the whole body has exactly `size` bytes
+fn padded_ndjson(size: usize, id: &str) -> Vec<u8> {
+  let base = format!("{{\"_id\":\"{id}\",\"body\":\"\"}}\n").len();
+  let pad = size.saturating_sub(base);
+  format!("{{\"_id\":\"{id}\",\"body\":\"{}\"}}\n", "x".repeat(pad)).into_bytes()
+}
+
+fn padded_bulk(size: usize, id: &str) -> Vec<u8> {
+  let base = format!("{{\"docs\":[{{\"_id\":\"{id}\",\"body\":\"\"}}]}}").len();
+  let pad = size.saturating_sub(base);
+  format!("{{\"docs\":[{{\"_id\":\"{id}\",\"body\":\"{}\"}}]}}", "x".repeat(pad)).into_bytes()
+}
+
+fn step(tag: &str, method: &str, path: &str, ct: Option<&str>, body: &[u8], framing: &str) -> Value {
+  json!({"tag": tag, "method": method, "path": path, "ct": ct, "body": hex(body), "framing": framing})
+}
+
+fn mutate(rng: &mut Rng, body: &[u8]) -> Vec<u8> {
+  let mut b = body.to_vec();
+  if b.is_empty() {
+    return vec![b'{'];
+  }
+  match rng.below(6) {
+    0 => {
+      let n = rng.below(b.len());
+      b.truncate(n);
+    }
+    1 => {
+      let i = rng.below(b.len());
+      b[i] = rng.below(256) as u8;
+    }
+    2 => {
+      let i = rng.below(b.len());
+      b.remove(i);
+    }
+    3 => {
+      let i = rng.below(b.len());
+      let j = i + rng.below(b.len() - i);
+      let seg = b[i..=j.min(b.len() - 1)].to_vec();
+      b.splice(i..i, seg);
+    }
+    4 => {
+      let i = rng.below(b.len());
+      let ins = *rng.pick(&[&b"null"[..], b"[", b"}", b"\"", b"\\u0000", b"1e999", b"-", b"\xff\xfe", b","]);
+      b.splice(i..i, ins.iter().copied());
+    }
+    _ => {
+      // swap two bytes
+      let i = rng.below(b.len());
+      let j = rng.below(b.len());
+      b.swap(i, j);
+    }
+  }
+  b
+}
+
+fn search_pool(rng: &mut Rng) -> Value {
+  let w = *rng.pick(&WORDS);
+  match rng.below(9) {
+    0 => json!({"query": w, "limit": 1 + rng.below(5), "return_stored": true}),
+    1 => json!({"query": {"type":"term","field":"body","value": w}, "limit": 3, "return_stored": false}),
+    2 => json!({"query": {"type":"match_all"}, "limit": 10, "return_stored": true, "execution": "bm25"}),
+    3 => json!({"query": format!("{} {}", w, rng.pick(&WORDS)), "limit": 2, "return_stored": true, "execution": "bmw", "explain": true}),
+    4 => json!({"query": w, "limit": 5, "return_stored": false, "aggs": {"n": {"type":"value_count","field":"body"}}}),
+    5 => json!({"query": {"type":"match_all"}, "limit": 5, "return_stored": true, "sort": [{"field":"year","order":"desc"}]}),
+    6 => json!({"query": w, "limit": 3, "return_stored": true, "highlight_field": "body"}),
+    7 => json!({"query": {"type":"prefix","field":"body","value": w.chars().next().unwrap().to_string()}, "limit": 4, "return_stored": false}),
+    _ => json!({"query": w, "limit": 3, "return_stored": true, "filter": {"KeywordEq": {"field":"tag","value":"a"}}}),
+  }
+}
+
+/// requests that make the core return an error or panic
+fn search_hostile(rng: &mut Rng) -> (String, Value) {
+  match rng.below(8) {
+    0 => ("search.cursor_garbage".into(), json!({"query":"rust","limit":3,"return_stored":true,"cursor":"zz"})),
+    // 42 bytes that are not 42 chars: slices a multi-byte character (C16)
+    1 => ("search.cursor_multibyte".into(), json!({"query":"rust","limit":3,"return_stored":true,"cursor": format!("a{}b", "é".repeat(20))})),
+    // the same term key from two leaves trips a debug assertion (C16)
+    2 => ("search.dup_leaf".into(), json!({"query":"rust body:rust","limit":3,"return_stored":true})),
+    3 => ("search.unknown_field".into(), json!({"query":{"type":"term","field":"nope","value":"x"},"limit":3,"return_stored":true})),
+    4 => ("search.sort_unknown".into(), json!({"query":"rust","limit":3,"return_stored":true,"sort":[{"field":"nope"}]})),
+    5 => ("search.bad_regex".into(), json!({"query":{"type":"regex","field":"body","value":"(("},"limit":3,"return_stored":true})),
+    6 => ("search.agg_unknown_field".into(), json!({"query":"rust","limit":3,"return_stored":false,"aggs":{"t":{"type":"terms","field":"nope"}}})),
+    _ => ("search.huge_limit".into(), json!({"query":{"type":"match_all"},"limit": 4_000_000_000u64,"return_stored":false,"cursor": "0".repeat(42)})),
+  }
+}
+
+const PATHS_UNKNOWN: [&str; 12] = ["/", "/nope", "/search/", "//search", "/SEARCH", "/add/1", "/healthz/x", "/v1/search", "/index", "/search%20", "/.", "/init/"];
+const METHODS_OTHER: [&str; 5] = ["PUT", "DELETE", "PATCH", "OPTIONS", "HEAD"];
+const CONTENT_TYPES_BAD: [Option<&str>; 5] = [None, Some("text/plain"), Some("application/x-ndjson"), Some("application/xml"), Some("json")];
+const CONTENT_TYPES_OK: [&str; 3] = ["application/json", "application/json; charset=utf-8", "application/vnd.api+json"];
+
+fn gen_step(rng: &mut Rng, max_body: usize, next_id: &mut usize, allow_stall: &mut u32) -> Value {
+  let j = "application/json";
+  let k = rng.below(100);
+  let sreq = search_pool(rng);
+  match k {
+    0..=5 => step("healthz", "GET", "/healthz", None, b"", "cl"),
+    6..=8 => step("stats", "GET", if rng.chance(1, 2) { "/stats" } else { "/inspect" }, None, b"", "cl"),
+    9..=14 => {
+      let s = schema_pool(rng.below(3));
+      step("init.valid", "POST", "/init", Some(*rng.pick(&CONTENT_TYPES_OK)), s.to_string().as_bytes(), "cl")
+    }
+    15..=16 => {
+      let bad = match rng.below(4) {
+        0 => json!({"text_fields": 3}),
+        1 => json!({"text_fields":[{"name":"body","analyzer":"nope","stored":true,"indexed":true}],"keyword_fields":[],"numeric_fields":[]}),
+        2 => json!({"doc_id_field":"a.b","text_fields":[],"keyword_fields":[],"numeric_fields":[]}),
+        _ => json!([1, 2, 3]),
+      };
+      step("init.invalid", "POST", "/init", Some(j), bad.to_string().as_bytes(), "cl")
+    }
+    17..=24 => {
+      let n = 1 + rng.below(4);
+      let docs: Vec<Value> = (0..n)
+        .map(|_| {
+          *next_id += 1;
+          gen_doc(rng, *next_id % 12)
+        })
+        .collect();
+      let framing = if rng.chance(1, 4) { format!("chunked:{}", 1 + rng.below(64)) } else { "cl".into() };
+      step("add.valid", "POST", "/add", if rng.chance(1, 2) { Some("application/x-ndjson") } else { None }, &ndjson(&docs), &framing)
+    }
+    25..=29 => {
+      let body: Vec<u8> = match rng.below(8) {
+        0 => b"{nope\n".to_vec(),
+        1 => b"[1,2]\n".to_vec(),
+        2 => b"{\"body\":\"no id\"}\n".to_vec(),
+        3 => b"{\"_id\":\"w1\",\"body\":17}\n".to_vec(),
+        4 => vec![0x7b, 0xff, 0xfe, 0x7d, 0x0a],
+        5 => b"\n  \n\r\n".to_vec(),
+        6 => b"{\"_id\":\"u1\",\"body\":\"ok\",\"zzz\":\"unknown field\"}\n".to_vec(),
+        _ => b"{\"_id\":\"   \",\"body\":\"blank id\"}\n{\"_id\":\"ok\",\"body\":\"x\"}\n".to_vec(),
+      };
+      step("add.hostile", "POST", "/add", None, &body, "cl")
+    }
+    30..=34 => {
+      let n = 1 + rng.below(3);
+      let docs: Vec<Value> = (0..n)
+        .map(|_| {
+          *next_id += 1;
+          gen_doc(rng, *next_id % 12)
+        })
+        .collect();
+      step("bulk.valid", "POST", "/bulk", Some(j), json!({"docs": docs}).to_string().as_bytes(), "cl")
+    }
+    35..=37 => {
+      let b = match rng.below(5) {
+        0 => json!({"docs": []}),
+        1 => json!({"docs": [1, "x"]}),
+        2 => json!({"documents": [{"_id":"1"}]}),
+        3 => json!({"docs": [{"body":"no id"}]}),
+        _ => json!([[{"_id":"seq1","body":"struct as sequence"}]]),
+      };
+      step("bulk.hostile", "POST", "/bulk", Some(j), b.to_string().as_bytes(), "cl")
+    }
+    38..=41 => {
+      let ids: Vec<String> = (0..1 + rng.below(3)).map(|_| format!("d{}", rng.below(12))).collect();
+      step("delete.valid", "POST", "/delete", Some(j), json!({"ids": ids}).to_string().as_bytes(), "cl")
+    }
+    42..=44 => {
+      let b = match rng.below(6) {
+        0 => json!({"ids": []}),
+        1 => json!({"ids": [" a"]}),
+        2 => json!({"ids": ["a\u{0007}b"]}),
+        3 => json!({"ids": [1, 2]}),
+        4 => json!({"ids": ["   "]}),
+        _ => json!({"id": ["d1"]}),
+      };
+      step("delete.hostile", "POST", "/delete", Some(j), b.to_string().as_bytes(), "cl")
+    }
+    45..=50 => step("commit", "POST", "/commit", None, if rng.chance(1, 3) { b"ignored body" } else { b"" }, "cl"),
+    51..=52 => step("refresh", "POST", "/refresh", None, b"", "cl"),
+    53..=55 => step("compact", "POST", "/compact", None, b"", "cl"),
+    56..=63 => {
+      let p = if rng.chance(1, 6) { "/search?pretty=1" } else { "/search" };
+      step("search.valid", "POST", p, Some(*rng.pick(&CONTENT_TYPES_OK)), sreq.to_string().as_bytes(), "cl")
+    }
+    64..=69 => {
+      let (tag, b) = search_hostile(rng);
+      step(&tag, "POST", "/search", Some(j), b.to_string().as_bytes(), "cl")
+    }
+    70..=71 => {
+      let mut b = sreq.clone();
+      match rng.below(3) {
+        0 => b["limit"] = json!(0),
+        1 => {
+          b.as_object_mut().unwrap().remove("return_stored");
+        }
+        _ => b["limit"] = json!(-1),
+      }
+      step("search.invalid_member", "POST", "/search", Some(j), b.to_string().as_bytes(), "cl")
+    }
+    72..=77 => {
+      // mutation stream: a valid body of some JSON endpoint, damaged
+      let (path, body) = match rng.below(4) {
+        0 => ("/search", sreq.to_string()),
+        1 => ("/bulk", json!({"docs": [gen_doc(rng, 1), gen_doc(rng, 2)]}).to_string()),
+        2 => ("/delete", json!({"ids": ["d1", "d2"]}).to_string()),
+        _ => ("/init", schema_pool(rng.below(3)).to_string()),
+      };
+      let mut b = mutate(rng, body.as_bytes());
+      if rng.chance(1, 3) {
+        b = mutate(rng, &b);
+      }
+      step("mutated.json", "POST", path, Some(j), &b, "cl")
+    }
+    78..=79 => {
+      let base = ndjson(&[gen_doc(rng, 3), gen_doc(rng, 4)]);
+      let b = mutate(rng, &base);
+      step("mutated.ndjson", "POST", "/add", None, &b, "cl")
+    }
+    80..=82 => {
+      let ct = *rng.pick(&CONTENT_TYPES_BAD);
+      let path = *rng.pick(&["/search", "/bulk", "/delete", "/init"]);
+      step("content_type.bad", "POST", path, ct, sreq.to_string().as_bytes(), "cl")
+    }
+    83..=86 => {
+      let p = *rng.pick(&PATHS_UNKNOWN);
+      let m = *rng.pick(&["GET", "POST", "PUT"]);
+      step("path.unknown", m, p, Some(j), if m == "GET" { b"" } else { b"{}" }, "cl")
+    }
+    87..=89 => {
+      let r = ROUTES[rng.below(ROUTES.len())];
+      let m = if rng.chance(1, 2) { if r.1 == "GET" { "POST" } else { "GET" } } else { *rng.pick(&METHODS_OTHER) };
+      step("method.other", m, r.2, Some(j), if m == "GET" || m == "HEAD" { b"" } else { b"{}" }, "cl")
+    }
+    90..=93 => {
+      // bodies around the limit, declared by Content-Length
+      let delta = *rng.pick(&[-1i64, 0, 1, 2, 700]);
+      let size = (max_body as i64 + delta) as usize;
+      *next_id += 1;
+      let id = format!("p{}", *next_id % 12);
+      if rng.chance(1, 2) {
+        step("limit.declared.add", "POST", "/add", None, &padded_ndjson(size, &id), "cl")
+      } else {
+        step("limit.declared.bulk", "POST", "/bulk", Some(j), &padded_bulk(size, &id), "cl")
+      }
+    }
+    94..=96 => {
+      // bodies around the limit, streamed (no Content-Length)
+      let delta = *rng.pick(&[-1i64, 0, 1, 300, 5000]);
+      let size = (max_body as i64 + delta) as usize;
+      *next_id += 1;
+      let id = format!("p{}", *next_id % 12);
+      let framing = format!("chunked:{}", *rng.pick(&[64usize, 500, 4096]));
+      if rng.chance(1, 2) {
+        step("limit.streamed.add", "POST", "/add", None, &padded_ndjson(size, &id), &framing)
+      } else {
+        step("limit.streamed.bulk", "POST", "/bulk", Some(j), &padded_bulk(size, &id), &framing)
+      }
+    }
+    97 => {
+      // a Content-Length that lies
+      let path = *rng.pick(&["/search", "/delete", "/add", "/nope", "/healthz"]);
+      let body = sreq.to_string();
+      let framing = match rng.below(3) {
+        0 => format!("cl_lie:{}", max_body + 1 + rng.below(1000)),
+        1 => format!("cl_under:{}", 1 + rng.below(body.len().min(20))),
+        _ => format!("cl_over_halfclose:{}", 1 + rng.below(30)),
+      };
+      step("framing.wrong_length", if path == "/healthz" { "GET" } else { "POST" }, path, Some(j), body.as_bytes(), &framing)
+    }
+    98 if *allow_stall > 0 => {
+      *allow_stall -= 1;
+      let path = *rng.pick(&["/search", "/add", "/bulk", "/commit", "/delete"]);
+      let body = if path == "/add" { ndjson(&[gen_doc(rng, 5)]) } else { sreq.to_string().into_bytes() };
+      let framing = if rng.chance(1, 2) { format!("cl_over:{}", 5 + rng.below(20)) } else { "chunked_trunc:16".to_string() };
+      step("framing.stall", "POST", path, Some(j), &body, &framing)
+    }
+    _ => {
+      let raw: &[u8] = *rng.pick(&[
+        &b"\x00\x01garbage\r\n\r\n"[..],
+        b"GET /healthz HTTP/9.9\r\n\r\n",
+        b"POST /search\r\n\r\n",
+        b"GET /healthz HTTP/1.1\r\nHost: a\r\nContent-Length: abc\r\n\r\n",
+        b"GET  HTTP/1.1\r\n\r\n",
+        b"POST /search HTTP/1.1\r\nHost: a\r\nTransfer-Encoding: chunked\r\n\r\nzz\r\n",
+      ]);
+      json!({"tag": "protocol.garbage", "raw": hex(raw)})
+    }
+  }
+}
+
+// ---------------------------------------------------------------------------------------
+// native derivation of the facts
+// ---------------------------------------------------------------------------------------
+
+#[derive(Debug, Clone, PartialEq)]
+enum Incomplete {
+  No,
+  Stall,
+  Truncated,
+}
+
+struct Wire {
+  plan: SendPlan,
+  declared: Option<usize>,
+  streamed: bool,
+  seen: Vec<u8>,
+  incomplete: Incomplete,
+}
+
+fn wire(stepv: &Value, stall_wait_ms: u64) -> Wire {
+  let method = stepv["method"].as_str().unwrap_or("GET");
+  let path = stepv["path"].as_str().unwrap_or("/");
+  let body = unhex(stepv["body"].as_str().unwrap_or(""));
+  let mut headers: Vec<(String, String)> = Vec::new();
+  if let Some(ct) = stepv["ct"].as_str() {
+    headers.push(("Content-Type".into(), ct.into()));
+  }
+  let framing = stepv["framing"].as_str().unwrap_or("cl");
+  let (kind, arg) = match framing.find(':') {
+    Some(i) => (&framing[..i], framing[i + 1..].parse::<usize>().unwrap_or(1)),
+    None => (framing, 0),
+  };
+  let normal_wait = 30_000;
+  match kind {
+    "chunked" => Wire {
+      plan: SendPlan { first: chunked_bytes(method, path, &headers, &body, arg, true), wait_ms: normal_wait, ..Default::default() },
+      declared: None,
+      streamed: true,
+      seen: body,
+      incomplete: Incomplete::No,
+    },
+    "chunked_trunc" => Wire {
+      plan: SendPlan { first: chunked_bytes(method, path, &headers, &body, arg, false), wait_ms: stall_wait_ms, ..Default::default() },
+      declared: None,
+      streamed: true,
+      seen: body,
+      incomplete: Incomplete::Stall,
+    },
+    "cl_over" => Wire {
+      plan: SendPlan { first: request_bytes(method, path, &headers, &body, Some(body.len() + arg)), wait_ms: stall_wait_ms, ..Default::default() },
+      declared: Some(body.len() + arg),
+      streamed: false,
+      seen: body,
+      incomplete: Incomplete::Stall,
+    },
+    "cl_over_halfclose" => Wire {
+      plan: SendPlan { first: request_bytes(method, path, &headers, &body, Some(body.len() + arg)), wait_ms: normal_wait, half_close: true, ..Default::default() },
+      declared: Some(body.len() + arg),
+      streamed: false,
+      seen: body,
+      incomplete: Incomplete::Truncated,
+    },
+    "cl_under" => {
+      let n = body.len().saturating_sub(arg);
+      Wire {
+        plan: SendPlan { first: request_bytes(method, path, &headers, &body, Some(n)), wait_ms: normal_wait, ..Default::default() },
+        declared: Some(n),
+        streamed: false,
+        seen: body[..n].to_vec(),
+        incomplete: Incomplete::No,
+      }
+    }
+    "cl_lie" => Wire {
+      plan: SendPlan { first: request_bytes(method, path, &headers, &body, Some(arg)), wait_ms: normal_wait, ..Default::default() },
+      declared: Some(arg),
+      streamed: false,
+      seen: body,
+      incomplete: Incomplete::Stall,
+    },
+    _ => {
+      let cl = if (method == "GET" || method == "HEAD") && body.is_empty() { None } else { Some(body.len()) };
+      Wire {
+        plan: SendPlan { first: request_bytes(method, path, &headers, &body, cl), wait_ms: normal_wait, ..Default::default() },
+        declared: cl,
+        streamed: false,
+        seen: body,
+        incomplete: Incomplete::No,
+      }
+    }
+  }
+}
+
+/// what axum 0.7's `Json<T>` does with the bytes: deserialize the *leading* JSON value; bytes
+/// after it are not looked at (no `Deserializer::end`)
+fn lead<'a, T: serde::Deserialize<'a>>(bytes: &'a [u8]) -> Result<T, serde_json::Error> {
+  let mut de = serde_json::Deserializer::from_slice(bytes);
+  T::deserialize(&mut de)
+}
+
+/// axum's `json_content_type`: `application/json` or `application/*+json`
+fn is_json_ct(ct: Option<&str>) -> bool {
+  let Some(ct) = ct else { return false };
+  let main = ct.split(';').next().unwrap_or("").trim().to_ascii_lowercase();
+  let Some((ty, sub)) = main.split_once('/') else { return false };
+  ty == "application" && (sub == "json" || sub.ends_with("+json"))
+}
+
+/// (kind, endpoint)
+pub fn route_of(method: &str, path: &str) -> (&'static str, &'static str) {
+  let p = path.split('?').next().unwrap_or("");
+  for (name, m, rp) in ROUTES.iter() {
+    if *rp == p {
+      let hit = *m == method || (*m == "GET" && method == "HEAD");
+      return (if hit { "hit" } else { "wrong_method" }, name);
+    }
+  }
+  ("unknown_path", "")
+}
+
+fn validate_ids(ids: &[String]) -> bool {
+  ids.iter().all(|id| {
+    let t = id.trim();
+    !t.is_empty() && t.len() == id.len() && !id.chars().any(|c| c.is_control())
+  })
+}
+
+fn to_document(v: &Value) -> Option<Document> {
+  let obj = v.as_object()?;
+  Some(Document { fields: obj.iter().map(|(k, v)| (k.clone(), v.clone())).collect() })
+}
+
+/// schema of the index on disk, read through the library
+fn disk_schema(idx: &Path) -> Option<Schema> {
+  Index::open(lib_opts(idx, false)).ok().map(|i| i.manifest().schema)
+}
+
+/// ok / err / panic of `index.writer()` on the directory (reads the log; writes nothing)
+fn probe_writer(idx: &Path) -> &'static str {
+  match guarded(|| Index::open(lib_opts(idx, false)).and_then(|i| i.writer().map(|_| ()))) {
+    Ok(Ok(())) => "ok",
+    Ok(Err(_)) => "err",
+    Err(_) => "panic",
+  }
+}
+
+fn copy_dir(from: &Path, to: &Path) {
+  let _ = std::fs::create_dir_all(to);
+  if let Ok(rd) = std::fs::read_dir(from) {
+    for e in rd.flatten() {
+      let p = e.path();
+      if p.is_file() {
+        let _ = std::fs::copy(&p, to.join(e.file_name()));
+      }
+    }
+  }
+}
+
+/// outcome of `writer().commit()` on a private copy of the directory
+fn probe_commit(idx: &Path) -> &'static str {
+  let tmp = scratch();
+  let copy = tmp.path().join("copy");
+  copy_dir(idx, &copy);
+  match guarded(|| {
+    let i = Index::open(lib_opts(&copy, false))?;
+    let mut w = i.writer()?;
+    w.commit()
+  }) {
+    Ok(Ok(())) => "ok",
+    Ok(Err(_)) => "err",
+    Err(_) => "panic",
+  }
+}
+
+fn probe_search(idx: &Path, req: &SearchRequest) -> &'static str {
+  match guarded(|| {
+    let i = Index::open(lib_opts(idx, false))?;
+    let r = i.reader()?;
+    r.search(req).map(|_| ())
+  }) {
+    Ok(Ok(())) => "ok",
+    Ok(Err(_)) => "err",
+    Err(_) => "panic",
+  }
+}
+
+struct Sess {
+  idx: PathBuf,
+  max_body: usize,
+  /// the server holds an open `Index`
+  loaded: bool,
+}
+
+struct Derived {
+  route_kind: &'static str,
+  endpoint: &'static str,
+  facts: Value,
+  /// core outcomes to try (set-valued where the harness cannot predict natively)
+  cores: Vec<&'static str>,
+  /// what the property statement demands natively: "413" | "404" | "409" | "4xx" | "500" | "2xx" | "non2xx" | "any"
+  expect: &'static str,
+  /// the request reaches `require_index` and finds an openable index
+  loads: bool,
+  ambiguous: bool,
+  notes: Vec<&'static str>,
+}
+
+fn derive(sess: &Sess, stepv: &Value, w: &Wire) -> Derived {
+  let method = stepv["method"].as_str().unwrap_or("GET");
+  let path = stepv["path"].as_str().unwrap_or("/");
+  let (route_kind, endpoint) = route_of(method, path);
+  let declared_oversize = w.declared.map(|d| d > sess.max_body).unwrap_or(false);
+  let streamed_oversize = w.streamed && w.seen.len() > sess.max_body;
+  let manifest_exists = sess.idx.join("MANIFEST.json").exists();
+  let mut notes = Vec::new();
+  let mut d = Derived {
+    route_kind,
+    endpoint,
+    facts: json!({}),
+    cores: vec!["ok"],
+    expect: "any",
+    loads: false,
+    ambiguous: false,
+    notes: vec![],
+  };
+  let mut facts = json!({"declared_oversize": declared_oversize, "manifest_exists": manifest_exists});
+  if declared_oversize {
+    d.facts = facts;
+    d.expect = "413";
+    return d;
+  }
+  if route_kind != "hit" {
+    d.facts = facts;
+    d.expect = if streamed_oversize { "413" } else { "non2xx" };
+    return d;
+  }
+  // index state as `require_index` sees it
+  let (idx_state, schema) = if sess.loaded {
+    ("ready", disk_schema(&sess.idx))
+  } else if !manifest_exists {
+    ("missing", None)
+  } else {
+    match disk_schema(&sess.idx) {
+      Some(s) => ("ready", Some(s)),
+      None => ("corrupt", None),
+    }
+  };
+  facts["idx"] = json!(idx_state);
+  let json_ep = matches!(endpoint, "init" | "bulk" | "delete" | "search");
+  let mut payload = "ok";
+  let mut input_bad = false;
+  let mut writer_err = false;
+  if json_ep {
+    let ct = stepv["ct"].as_str();
+    payload = if !is_json_ct(ct) {
+      "no_json_content_type"
+    } else if streamed_oversize || w.seen.len() > AXUM_DEFAULT_LIMIT {
+      "length_limit"
+    } else if w.incomplete == Incomplete::Stall {
+      "stall"
+    } else if w.incomplete == Incomplete::Truncated {
+      "buffer_error"
+    } else {
+      let r: Result<(), serde_json::Error> = match endpoint {
+        "init" => lead::<Schema>(&w.seen).map(|_| ()),
+        "bulk" => lead::<BulkReq>(&w.seen).map(|_| ()),
+        "delete" => lead::<DeleteReq>(&w.seen).map(|_| ()),
+        _ => lead::<SearchRequest>(&w.seen).map(|_| ()),
+      };
+      if r.is_ok() && serde_json::from_slice::<Value>(&w.seen).is_err() {
+        notes.push("trailing_bytes_after_json_accepted");
+      }
+      match r {
+        Ok(()) => "ok",
+        Err(e) => match e.classify() {
+          serde_json::error::Category::Data => "data_error",
+          _ => "syntax_error",
+        },
+      }
+    };
+    if payload == "length_limit" && w.seen.len() > AXUM_DEFAULT_LIMIT && !streamed_oversize {
+      notes.push("axum_default_body_limit");
+    }
+  }
+  facts["payload"] = json!(payload);
+  match endpoint {
+    "healthz" => d.expect = "2xx",
+    "init" => {
+      if payload == "ok" {
+        if manifest_exists {
+          d.expect = "409";
+        } else {
+          let schema: Schema = lead(&w.seen).unwrap();
+          let core = match guarded(|| schema.validate_config()) {
+            Ok(Ok(_)) => "ok",
+            Ok(Err(_)) => "err",
+            Err(_) => "panic",
+          };
+          d.cores = vec![core];
+          d.expect = match core {
+            "ok" => "2xx",
+            "err" => "4xx",
+            _ => "500",
+          };
+        }
+      } else {
+        d.expect = if payload == "stall" { "any" } else if payload == "length_limit" { "413" } else { "4xx" };
+      }
+    }
+    "add" => {
+      // the NDJSON loop, natively
+      let mut add_body = "docs";
+      let mut docs: Vec<Value> = Vec::new();
+      let mut bad = None;
+      if idx_state == "ready" {
+        let complete = w.incomplete == Incomplete::No && !streamed_oversize;
+        let mut pieces: Vec<&[u8]> = w.seen.split_inclusive(|b| *b == b'\n').collect();
+        if !complete {
+          if let Some(last) = pieces.last() {
+            if !last.ends_with(b"\n") {
+              pieces.pop();
+            }
+          }
+        }
+        for p in pieces {
+          match std::str::from_utf8(p) {
+            Err(_) => {
+              bad = Some("read_err");
+              break;
+            }
+            Ok(line) => {
+              let t = line.trim();
+              if t.is_empty() {
+                continue;
+              }
+              match serde_json::from_str::<Value>(t) {
+                Ok(v) if v.is_object() => docs.push(v),
+                _ => {
+                  bad = Some("bad_line");
+                  break;
+                }
+              }
+            }
+          }
+        }
+        add_body = match bad {
+          Some(b) => {
+            if streamed_oversize || w.incomplete != Incomplete::No {
+              // which comes first depends on frame boundaries
+              d.ambiguous = true;
+            }
+            b
+          }
+          None => {
+            if streamed_oversize {
+              "read_err"
+            } else if w.incomplete == Incomplete::Stall {
+              "stall"
+            } else if w.incomplete == Incomplete::Truncated {
+              "read_err"
+            } else if docs.is_empty() {
+              "empty"
+            } else {
+              "docs"
+            }
+          }
+        };
+      }
+      facts["add_body"] = json!(add_body);
+      d.loads = idx_state == "ready";
+      if idx_state == "missing" {
+        d.expect = "404";
+      } else if idx_state == "corrupt" {
+        d.expect = "non2xx";
+      } else {
+        match add_body {
+          "docs" => {
+            let (core, werr) = ingest_core(&sess.idx, schema.as_ref(), &docs);
+            d.cores = vec![core];
+            facts["writer_err"] = json!(werr);
+            d.expect = match (core, werr) {
+              (_, true) => "non2xx",
+              ("ok", _) => "2xx",
+              ("err", _) => "4xx",
+              _ => "500",
+            };
+          }
+          "empty" => d.expect = "2xx",
+          "stall" => d.expect = "any",
+          "read_err" if streamed_oversize => d.expect = "413",
+          _ => d.expect = "4xx",
+        }
+      }
+    }
+    "bulk" | "delete" => {
+      if payload == "ok" {
+        if endpoint == "bulk" {
+          let b: BulkReq = lead(&w.seen).unwrap();
+          input_bad = b.docs.is_empty() || b.docs.iter().any(|x| !x.is_object());
+          if !input_bad {
+            d.loads = idx_state == "ready";
+            if idx_state == "ready" {
+              let (core, werr) = ingest_core(&sess.idx, schema.as_ref(), &b.docs);
+              d.cores = vec![core];
+              writer_err = werr;
+            }
+          }
+        } else {
+          let r: DeleteReq = lead(&w.seen).unwrap();
+          input_bad = r.ids.is_empty() || !validate_ids(&r.ids);
+          if !input_bad {
+            d.loads = idx_state == "ready";
+            if idx_state == "ready" {
+              let ws = probe_writer(&sess.idx);
+              d.cores = vec![if ws == "panic" { "panic" } else { "ok" }];
+              writer_err = ws == "err";
+            }
+          }
+        }
+        facts["writer_err"] = json!(writer_err);
+        d.expect = if input_bad {
+          "4xx"
+        } else {
+          match (idx_state, d.cores[0]) {
+            ("missing", _) => "404",
+            ("corrupt", _) => "non2xx",
+            _ if writer_err => "non2xx",
+            (_, "ok") => "2xx",
+            (_, "err") => "4xx",
+            _ => "500",
+          }
+        };
+      } else {
+        d.expect = if payload == "stall" { "any" } else if payload == "length_limit" && streamed_oversize { "413" } else { "4xx" };
+      }
+    }
+    "commit" => {
+      d.loads = idx_state == "ready";
+      if idx_state == "ready" {
+        let core = probe_commit(&sess.idx);
+        d.cores = vec![core];
+        d.expect = match core {
+          "ok" => "2xx",
+          "err" => "non2xx",
+          _ => "500",
+        };
+      } else {
+        d.expect = if idx_state == "missing" { "404" } else { "non2xx" };
+      }
+    }
+    "refresh" | "compact" => {
+      d.loads = idx_state == "ready";
+      if idx_state == "ready" {
+        // not predicted natively: compaction may refuse (non-stored fast fields), a reader may fail
+        d.cores = vec!["ok", "err"];
+        d.expect = "any";
+      } else {
+        d.expect = if idx_state == "missing" { "404" } else { "non2xx" };
+      }
+    }
+    "search" => {
+      if payload == "ok" {
+        let req: SearchRequest = lead(&w.seen).unwrap();
+        input_bad = req.limit == 0;
+        if input_bad {
+          d.expect = "4xx";
+        } else {
+          d.loads = idx_state == "ready";
+          if idx_state == "ready" {
+            let core = probe_search(&sess.idx, &req);
+            d.cores = vec![core];
+            d.expect = match core {
+              "ok" => "2xx",
+              "err" => "4xx",
+              _ => "500",
+            };
+          } else {
+            d.expect = if idx_state == "missing" { "404" } else { "non2xx" };
+          }
+        }
+      } else {
+        d.expect = if payload == "stall" { "any" } else if payload == "length_limit" && streamed_oversize { "413" } else { "4xx" };
+      }
+    }
+    _ => {
+      // inspect, stats
+      d.loads = idx_state == "ready";
+      d.expect = match idx_state {
+        "ready" => "2xx",
+        "missing" => "404",
+        _ => "non2xx",
+      };
+    }
+  }
+  facts["input_bad"] = json!(input_bad);
+  d.facts = facts;
+  d.notes = notes;
+  d
+}
+
+/// outcome of `writer(); add_document*` for these documents: (core, `writer()` returned Err)
+fn ingest_core(idx: &Path, schema: Option<&Schema>, docs: &[Value]) -> (&'static str, bool) {
+  match probe_writer(idx) {
+    "panic" => return ("panic", false),
+    "err" => return ("ok", true),
+    _ => {}
+  }
+  let Some(schema) = schema else { return ("ok", false) };
+  for v in docs {
+    let Some(doc) = to_document(v) else { return ("err", false) };
+    match guarded(|| schema.validate_document(&doc)) {
+      Ok(Ok(())) => {}
+      Ok(Err(_)) => return ("err", false),
+      Err(_) => return ("panic", false),
+    }
+  }
+  ("ok", false)
+}
+
+fn observed_shape(r: &Resp) -> &'static str {
+  if r.status.is_none() {
+    return "no_response";
+  }
+  if r.body.is_empty() {
+    return "empty";
+  }
+  match r.json() {
+    Some(v) => {
+      if v["error"]["type"].is_string() && v["error"]["reason"].is_string() {
+        "error_json"
+      } else {
+        "ok_json"
+      }
+    }
+    None => "other",
+  }
+}
+
+/// the documented success body of each endpoint
+fn documented_ok(endpoint: &str, v: &Value) -> bool {
+  match endpoint {
+    "healthz" => v["status"] == json!("ok"),
+    "init" => v["created"].is_boolean(),
+    "add" | "bulk" | "delete" => v["queued"].is_u64(),
+    "commit" => v["committed"].is_boolean(),
+    "refresh" => v["refreshed"].is_boolean(),
+    "compact" => v["compacted"].is_boolean(),
+    "search" => v.is_object() && (v["hits"].is_array() || v.get("total_hits_estimate").is_some() || v.get("total_hits").is_some()),
+    "inspect" => v["manifest"].is_object(),
+    "stats" => v["documents"].is_u64() && v["segments"].is_u64(),
+    _ => false,
+  }
+}
+
+fn obs_json(r: &Resp) -> Value {
+  json!({"status": r.status, "end": r.end, "complete": r.complete, "body": r.body_text()})
+}
+
+/// disk actions between requests (`{"disk": …}` steps)
+fn disk_action(kind: &str, idx: &Path) {
+  match kind {
+    "corrupt_manifest" => {
+      let _ = std::fs::create_dir_all(idx);
+      let _ = std::fs::write(idx.join("MANIFEST.json"), b"{ this is not a manifest");
+    }
+    "garbage_wal" => {
+      // 12 continuation bytes (an over-long varint): must be treated as an empty log
+      let _ = std::fs::write(idx.join("wal.log"), [0x80u8; 12]);
+    }
+    "create_external" => {
+      let schema: Schema = serde_json::from_value(schema_pool(1)).unwrap();
+      if let Ok(i) = Index::create(idx, schema, lib_opts(idx, true)) {
+        if let Ok(mut w) = i.writer() {
+          let _ = w.add_document(&to_document(&json!({"_id":"x1","body":"rust search engine","tag":"a","year":2001})).unwrap());
+          let _ = w.add_document(&to_document(&json!({"_id":"x2","body":"fast lite index","tag":"b","year":2002})).unwrap());
+          let _ = w.commit();
+        }
+      }
+    }
+    _ => {}
+  }
+}
+
+impl Prop for C24 {
   fn id(&self) -> &'static str {
     "C24"
   }
   fn rule(&self) -> &'static str {
-    "stub"
+    "case = one session (fresh in-process server + scratch index directory, 20-30 raw HTTP/1.1 requests drawn from valid / hostile / mutated bodies, content types, methods, paths, framings around the body limit, stalls, core errors and panics, disk actions); every request is one evaluation; a request is non-trivial when it exercises a failure branch (the model's expected status is not 2xx) ; distinct = distinct (server config, index state, request) JSON"
   }
-  fn count(&self, _tier: Tier) -> usize {
-    0
+  fn count(&self, tier: Tier) -> usize {
+    tier.pick(64, 6000)
   }
-  fn gen(&self, _rng: &mut Rng, _tier: Tier, _i: usize) -> Value {
-    json!(null)
+  fn gen(&self, rng: &mut Rng, _tier: Tier, i: usize) -> Value {
+    let max_body = *rng.pick(&[1024usize, 2048, 4096, 16384]);
+    let kind = match i % 8 {
+      0 => "preexisting",
+      1 => "late_external",
+      2 => "corrupt_manifest",
+      3 => "garbage_wal",
+      _ => "normal",
+    };
+    let with_stall = i % 4 == 1;
+    let mut allow_stall = if with_stall { 2 } else { 0 };
+    let n = 20 + rng.below(11);
+    let mut steps: Vec<Value> = Vec::new();
+    let mut next_id = 0usize;
+    let j = Some("application/json");
+    match kind {
+      "normal" => {
+        // some traffic before the index exists, then /init near the front
+        for _ in 0..rng.below(5) {
+          steps.push(gen_step(rng, max_body, &mut next_id, &mut allow_stall));
+        }
+        steps.push(step("init.valid", "POST", "/init", j, schema_pool(rng.below(3)).to_string().as_bytes(), "cl"));
+      }
+      "late_external" => {
+        for _ in 0..3 {
+          steps.push(gen_step(rng, max_body, &mut next_id, &mut allow_stall));
+        }
+        steps.push(json!({"tag": "disk", "disk": "create_external"}));
+      }
+      "corrupt_manifest" => {
+        steps.push(json!({"tag": "disk", "disk": "corrupt_manifest"}));
+      }
+      "garbage_wal" => {
+        steps.push(step("init.valid", "POST", "/init", j, schema_pool(0).to_string().as_bytes(), "cl"));
+        steps.push(step("add.valid", "POST", "/add", None, &ndjson(&[gen_doc(rng, 1), gen_doc(rng, 2)]), "cl"));
+        steps.push(step("commit", "POST", "/commit", None, b"", "cl"));
+        steps.push(json!({"tag": "disk", "disk": "garbage_wal"}));
+        // every writer-opening endpoint once, /delete among them
+        steps.push(step("delete.valid", "POST", "/delete", j, json!({"ids": ["d1"]}).to_string().as_bytes(), "cl"));
+        steps.push(step("add.valid", "POST", "/add", None, &ndjson(&[gen_doc(rng, 3)]), "cl"));
+        steps.push(step("commit", "POST", "/commit", None, b"", "cl"));
+      }
+      _ => {}
+    }
+    while steps.len() < n {
+      steps.push(gen_step(rng, max_body, &mut next_id, &mut allow_stall));
+    }
+    if i % 16 == 5 {
+      // a body above axum's built-in 2 MiB extractor limit but below the configured limit
+      steps.push(step("bulk.over_axum_default", "POST", "/bulk", j, &padded_bulk(AXUM_DEFAULT_LIMIT + 1000, "big"), "cl"));
+      return json!({"kind": kind, "cfg": {"max_body": 8 * 1024 * 1024, "timeout_secs": if with_stall { 5 } else { 60 }}, "steps": steps});
+    }
+    json!({"kind": kind, "cfg": {"max_body": max_body, "timeout_secs": if with_stall { 5 } else { 60 }}, "steps": steps})
   }
-  fn run_case(&self, _drv: &mut Driver, _case: &Value, _s: &mut Summary) {}
+
+  fn run_case(&self, drv: &mut Driver, case: &Value, s: &mut Summary) {
+    let dir = scratch();
+    let idx = dir.path().join("idx");
+    let kind = case["kind"].as_str().unwrap_or("normal");
+    let max_body = case["cfg"]["max_body"].as_u64().unwrap_or(4096) as usize;
+    let timeout_secs = case["cfg"]["timeout_secs"].as_u64().unwrap_or(60);
+    if kind == "preexisting" {
+      disk_action("create_external", &idx);
+    }
+    let cfg = ServerCfg { max_body: max_body as u64, timeout_secs, ..Default::default() };
+    let srv = match Server::start(&idx, &cfg) {
+      Ok(s) => s,
+      Err(e) => {
+        s.fail("server.start", "the server did not start on a fresh directory", case, json!(e));
+        return;
+      }
+    };
+    let mut sess = Sess { idx: idx.clone(), max_body, loaded: kind == "preexisting" };
+    s.count(&format!("session.{kind}"));
+    let steps = case["steps"].as_array().cloned().unwrap_or_default();
+    let stall_wait = (timeout_secs + 20) * 1000;
+    for (k, stepv) in steps.iter().enumerate() {
+      // the replayable prefix of the session up to this request
+      let upto = || {
+        let mut c = case.clone();
+        c["steps"] = json!(steps[..=k].to_vec());
+        c
+      };
+      if let Some(dk) = stepv["disk"].as_str() {
+        if !sess.loaded || dk == "garbage_wal" {
+          disk_action(dk, &idx);
+          s.count(&format!("disk.{dk}"));
+        }
+        continue;
+      }
+      let tag = stepv["tag"].as_str().unwrap_or("?").to_string();
+      s.count(&format!("req.{tag}"));
+      // ---- protocol-level garbage: outside the statement's quantifier; only liveness ----
+      if let Some(raw) = stepv["raw"].as_str() {
+        let r = exchange(srv.port, &SendPlan { first: unhex(raw), wait_ms: 3000, half_close: true, ..Default::default() });
+        s.case(&json!({"raw": raw}), false);
+        s.count(&format!("protocol.status.{}", r.status.map(|c| c.to_string()).unwrap_or_else(|| "none".into())));
+        let h = simple(srv.port, "GET", "/healthz", None, b"");
+        if h.status != Some(200) || !srv.alive() {
+          s.fail("healthz-after.protocol", "the server stopped answering /healthz after a malformed HTTP message", &upto(), obs_json(&h));
+          return;
+        }
+        continue;
+      }
+      let w = wire(stepv, stall_wait);
+      let d = derive(&sess, stepv, &w);
+      for n in d.notes.iter() {
+        s.count(&format!("note.{n}"));
+      }
+      let r = exchange(srv.port, &w.plan);
+      let class = match d.route_kind {
+        "hit" => d.endpoint,
+        "wrong_method" => "wrong-method",
+        _ => "unknown-path",
+      };
+      if std::env::var("C24_TRACE").is_ok() {
+        eprintln!("[{k}] {tag} {} {} -> {:?} {} | facts {} cores {:?} expect {}", stepv["method"], stepv["path"], r.status, r.body_text(), d.facts, d.cores, d.expect);
+      }
+      let head = stepv["method"] == json!("HEAD");
+      let shape = observed_shape(&r);
+      let status = r.status.unwrap_or(0);
+      s.count(&format!("status.{status}"));
+      s.count(&format!("expect.{}", d.expect));
+      let sub = json!({"cfg": case["cfg"], "state": {"loaded": sess.loaded, "manifest": d.facts["manifest_exists"], "idx": d.facts["idx"]}, "step": stepv});
+
+      // ---- correspondence: model vs socket ----
+      let mut model_status = 0u64;
+      let mut agreed = d.ambiguous;
+      let mut last_model = json!(null);
+      if !d.ambiguous {
+        for core in d.cores.iter() {
+          let mut facts = d.facts.clone();
+          facts["core"] = json!(core);
+          let route = json!({"kind": d.route_kind, "endpoint": d.endpoint});
+          let m = drv.call("C24", json!({"op": "respond", "route": route, "facts": facts}));
+          if m["ok"] != json!(true) {
+            last_model = m;
+            continue;
+          }
+          model_status = m["status"].as_u64().unwrap_or(0);
+          let shape_ok = head || m["shape"] == json!(shape);
+          if model_status == status as u64 && shape_ok {
+            agreed = true;
+            last_model = m;
+            break;
+          }
+          last_model = m;
+        }
+        if !agreed {
+          s.disagree("http.respond", &upto(), json!({"status": status, "shape": shape, "facts": d.facts, "cores": d.cores, "observed": obs_json(&r)}), last_model.clone());
+        }
+      } else {
+        s.count("ambiguous_order_skipped");
+      }
+      s.case(&sub, !(200..300).contains(&(model_status as u16)) || d.expect != "2xx");
+
+      // ---- finder: the statement on the implementation alone ----
+      let core_panic = d.cores == vec!["panic"];
+      if r.status.is_none() {
+        let sig = if core_panic { format!("no-response.{class}.core-panic") } else { format!("no-response.{class}") };
+        s.fail(&sig, "the connection ended without an HTTP response", &upto(), obs_json(&r));
+      } else if !head {
+        if (200..300).contains(&status) {
+          let okj = r.json().map(|v| documented_ok(d.endpoint, &v)).unwrap_or(false);
+          if d.route_kind != "hit" || !okj {
+            s.fail(&format!("shape.2xx.{class}"), "a 2xx response does not carry the endpoint's documented JSON", &upto(), obs_json(&r));
+          }
+        } else if shape != "error_json" {
+          s.fail(&format!("shape.{status}.{class}"), "a non-2xx response whose body is not {\"error\":{\"type\",\"reason\"}}", &upto(), obs_json(&r));
+        }
+        let streamed_over = w.streamed && w.seen.len() > sess.max_body;
+        let bad = match d.expect {
+          "413" => status != 413,
+          "404" => status != 404,
+          "409" => status != 409,
+          "4xx" => !(400..500).contains(&status),
+          "500" => status != 500,
+          "2xx" => !(200..300).contains(&status),
+          "non2xx" => (200..300).contains(&status),
+          _ => false,
+        };
+        if bad {
+          let what = match d.expect {
+            "413" if streamed_over => "streamed-oversize",
+            "413" => "declared-oversize",
+            "404" => "missing-index",
+            "409" => "re-init",
+            "4xx" => "invalid-input",
+            "500" => "core-panic",
+            "2xx" => "valid-request",
+            _ => "failure",
+          };
+          s.fail(&format!("status.{what}.{class}.{status}"), "the status required by the statement for this request class was not returned", &upto(), json!({"expected": d.expect, "observed": obs_json(&r)}));
+        }
+      }
+      // ---- liveness after every request ----
+      let h = simple(srv.port, "GET", "/healthz", None, b"");
+      let hv = h.json().unwrap_or(Value::Null);
+      if h.status != Some(200) || hv["status"] != json!("ok") || !srv.alive() {
+        s.fail(&format!("healthz-after.{class}"), "/healthz did not answer 200 {\"status\":\"ok\"} after this request", &upto(), obs_json(&h));
+        return;
+      }
+      // ---- session state ----
+      if d.endpoint == "init" && d.route_kind == "hit" && status == 200 {
+        sess.loaded = true;
+      }
+      if d.loads {
+        sess.loaded = true;
+      }
+    }
+  }
+
+  fn finish(&self, _tier: Tier, s: &mut Summary) {
+    s.exhaustive = false;
+    s.notes.push("status and body shape compared per request; /healthz probed on a fresh connection after every request; core outcome of /refresh and /compact is not predicted natively (model asked for ok and err); protocol-level garbage only checked for liveness".into());
+  }
 }
